@@ -9,6 +9,9 @@ from vt.harness.common import control_slices, ob
 from vt.monitors import C09Pause, count
 
 
+OWN_THOROUGH = True
+
+
 def pause_twin(ch, ctx, did, steps, twin=False, **pol):
     """Run B: pause at a symbolic boundary, resume once at rest. Run A': the same completion
     order and outcomes with no pause. Status, executed tasks, errors and output must agree."""
@@ -53,8 +56,18 @@ def obligations(tier):
     obs = [kernels.e1("C09", "L7_pausing_holds", "L7_pausing_holds", timeout=600)]
     quick = [("D02", 5), ("D03", 4), ("D04", 5), ("D07", 5), ("D08", 4), ("D09", 8), ("D10", 5), ("D11", 5), ("D12p", 7), ("D13", 4)]
     for did, steps in quick:
-        o = ob("C09", "e2c." + did, "vt.harness.C09:pause_twin", {"did": did, "steps": steps}, timeout=900)
+        if tier == "thorough":
+            steps += 1
+        o = ob("C09", "e2c." + did, "vt.harness.C09:pause_twin", {"did": did, "steps": steps}, timeout=900 if tier == "quick" else 3600)
         o["antecedents"] = ["c09_twin_compared", "c09_offer_checked"]
-        obs.append(o)
+        if tier == "thorough":
+            # one worker per pause boundary (the histories without a pause have nothing to compare)
+            for b in range(steps + 2):
+                d = dict(o)
+                d["id"] = "%s#p%d" % (o["id"], b)
+                d["fixed"] = {"ctl_at": b}
+                obs.append(d)
+        else:
+            obs.append(o)
     obs.append(ob("C09", "twin.D04", "vt.harness.C09:pause_twin", {"did": "D04", "steps": 5, "twin": True}, timeout=120))
     return obs
